@@ -318,3 +318,25 @@ def check(ctx):
                        msg="already-encoded packet modified at index %s with %s %s" % (show(e.a["key"]), e.a["op"], show(e.a["val"])))
     ctx.floor("DUP patch events", npatch, 2)
     ctx.count("packet_types", n)
+
+
+def wire_premise(ctx, rule, consequence):
+    """The encoders' side of a property about the byte stream: what is written is only well-formed if every encoder produces the
+    prescribed packet (first byte, remaining length that counts exactly what follows, fields in place, primitives exact).  Runs
+    the C02 rules and reports their failures under `rule` of the calling property."""
+    from ..report import Ctx, load_known
+    sub = Ctx("C02", ctx.a, ctx.tier)
+    check(sub)
+    known = {(k["rule"], k["construct"]) for k in load_known() if k.get("property") == "C02" and k.get("status") == "known"}
+    seen = set()
+    for f in sub.findings:
+        key = (f.rule, f.construct)
+        if key in seen or key in known:
+            continue
+        seen.add(key)
+        ctx.ob(rule, "encoding premise %s %s" % (f.rule, f.construct), False, file=f.file, line=f.line, function=f.function,
+               construct="encoding/%s/%s" % (f.rule, f.construct), msg="%s (C02 %s) - %s" % (f.message, f.rule, consequence))
+    if not seen:
+        ctx.ob(rule, "every encoder produces the packet the specification prescribes (%d instances of C02's rules)" % len(sub.obligations),
+               True, where="src/mqtt/pdu.py", construct="encoding/premises")
+    ctx.count("encoding_premise_instances", len(sub.obligations))
